@@ -372,3 +372,14 @@ package state
 //@   loop * invariant true
 //@   assert evicts_what_it_reports at call removeTransaction : [C06] arg1 == hash && len(result) > 0 && result[len(result) - 1] == hash
 //@   assert iterates_a_copy at call removeTransaction : [C06] fresharr(hashes) && len(hashes) == len(list)
+
+// The periodic check re-requests tracked transactions whose request window has passed: whatever it
+// recorded as re-requested (and dropped from the tracker) is in a get-data message that was handed
+// to the transmitter — no message with entries is left unsent when it returns.
+//@ func (*TxTracker).Check
+//@   serves C14
+//@   opt nomonitor = 1
+//@   opt partial = 1
+//@   requires tracker != nil && tracker.txids != nil && mempool != nil && InvTx(mempool) && !held(mempool.mutex)
+//@   loop 0 invariant tracker.txids != nil && InvTx(mempool) && !held(mempool.mutex)
+//@   ensures nothing_left_unsent afterloop 0 : [C14] result == nil ==> len(invRequest.InvList) == 0 || transmitted(invRequest)
